@@ -74,6 +74,10 @@ pub struct SimState {
     owners: HashMap<u64, (i64, bool), BuildHasherDefault<IdHasher>>,
     gap_left: u64,
     pub monitor_on: bool,
+    /// F-subset applies to the first top-level parallel iterator of an execution (the one over
+    /// the replica indices); a pipeline that makes a second pass over what the first one
+    /// collected must see all of it
+    pub deliver_consumed: bool,
 }
 
 std::thread_local! {
@@ -84,12 +88,21 @@ std::thread_local! {
         owners: HashMap::default(),
         gap_left: 0,
         monitor_on: false,
+        deliver_consumed: false,
     });
 }
 
 shuttle::thread_local! {
     /// the item (position in the source) the current simulated thread is evaluating; -1 = none
     static CURRENT_ITEM: std::cell::Cell<i64> = std::cell::Cell::new(-1);
+}
+
+impl SimState {
+    /// the end of a top-level parallel iterator is a join: what its items owned is released, and
+    /// the items of the next top-level iterator start with a clean record
+    pub fn release_all(&mut self) {
+        self.owners.clear();
+    }
 }
 
 pub fn with<R>(f: impl FnOnce(&mut SimState) -> R) -> R {
@@ -104,6 +117,7 @@ pub fn configure(cfg: SimConfig, monitor_on: bool) {
         s.owners.clear();
         s.gap_left = 0;
         s.monitor_on = monitor_on;
+        s.deliver_consumed = false;
     });
 }
 
